@@ -563,4 +563,560 @@ theorem comps_nonempty (caps : Caps) (d : Pen) : ∀ c ∈ comps caps d, c ≠ [
     · repeat' split at h
       all_goals (simp at h; try (subst h; simp))
 
+/-! ### 5. term.c: cache and delta move together -/
+
+theorem stepBool_expect (set : Bool) (c p : Option Bool) :
+    getBool (stepBool set c p).1 = ((stepBool set c p).2).getD (getBool c) := by
+  unfold stepBool
+  split
+  · rfl
+  · split <;> rfl
+
+theorem stepInt_expect {α : Type} (f : Int → α) (set : Bool) (c p : Option Int) :
+    f (getInt (stepInt set c p).1) = (((stepInt set c p).2).map f).getD (f (getInt c)) := by
+  unfold stepInt
+  split
+  · rfl
+  · split <;> rfl
+
+theorem stepColour_expect (rgb8 set : Bool) (colors : Int) (c p : Option Colour) :
+    expectColour rgb8 (stepColour set colors c p).1 =
+      ovColour rgb8 (stepColour set colors c p).2 (expectColour rgb8 c) := by
+  unfold stepColour
+  split
+  · rfl
+  · split
+    · rfl
+    · split <;> rfl
+
+/-- What the cached pen asks for after a request = what it asked for before, overlaid with the delta. -/
+theorem expect_step (caps : Caps) (set : Bool) (colors : Int) (cache pen : Pen) :
+    expectAttrs caps (termCache set colors cache pen) =
+      ovAttrs caps (termDelta set colors cache pen) (expectAttrs caps cache) := by
+  simp only [expectAttrs, ovAttrs, termCache, termDelta, Attrs.mk.injEq]
+  refine ⟨stepColour_expect _ _ _ _ _, stepColour_expect _ _ _ _ _, stepBool_expect _ _ _, trivial, stepBool_expect _ _ _,
+    stepInt_expect Int.toNat _ _ _, stepBool_expect _ _ _, stepBool_expect _ _ _, stepBool_expect _ _ _,
+    stepInt_expect expectFont _ _ _, stepInt_expect expectSizepos _ _ _, trivial⟩
+
+/-! ### 6. one request preserves "terminal = cached pen" -/
+
+theorem deltaOk_termDelta (caps : Caps) (set : Bool) (colors : Int) (cache p : Pen) (h : DeltaOk caps p) :
+    DeltaOk caps (termDelta set colors cache p) := by
+  constructor
+  · intro v hv
+    simp only [termDelta, stepInt] at hv
+    split at hv
+    · cases hv
+    · split at hv
+      · cases hv
+      · cases hu : p.under with
+        | none => simp [hu, getInt] at hv; subst hv; exact ⟨by omega, Or.inr (by omega)⟩
+        | some w => simp [hu, getInt] at hv; subst hv; exact h.under w hu
+  · intro v hv
+    simp only [termDelta, stepInt] at hv
+    split at hv
+    · cases hv
+    · split at hv
+      · cases hv
+      · cases hu : p.sizepos with
+        | none => simp [hu, getInt] at hv; subst hv; exact Or.inl rfl
+        | some w => simp [hu, getInt] at hv; subst hv; exact h.sizepos w hu
+
+theorem colourComps_eq_nil (attr : Nat) (rgb8 : Bool) (o : Option Colour) (h : colourComps attr rgb8 o = []) : o = none := by
+  cases o with
+  | none => rfl
+  | some c =>
+    unfold colourComps at h
+    simp only at h
+    repeat' split at h
+    all_goals simp at h
+
+theorem boolComps_eq_nil (attr : Nat) (o : Option Bool) (h : boolComps attr o = []) : o = none := by
+  cases o with
+  | none => rfl
+  | some c => simp [boolComps] at h
+
+theorem underComps_eq_nil (o : Option Int) (h : underComps o = []) : o = none := by
+  cases o with
+  | none => rfl
+  | some c =>
+    unfold underComps at h
+    simp only at h
+    repeat' split at h
+    all_goals simp at h
+
+theorem altfontComps_eq_nil (o : Option Int) (h : altfontComps o = []) : o = none := by
+  cases o with
+  | none => rfl
+  | some c =>
+    unfold altfontComps at h
+    simp only at h
+    repeat' split at h
+    all_goals simp at h
+
+theorem sizeposComps_eq_nil (o : Option Int)
+    (hok : ∀ v, o = some v → v = 0 ∨ v = Tickit.Gen.Sgr.sizeposSuperscript ∨ v = Tickit.Gen.Sgr.sizeposSubscript)
+    (h : sizeposComps o = []) : o = none := by
+  cases o with
+  | none => rfl
+  | some c =>
+    exfalso
+    rcases hok c rfl with h0 | h0 | h0 <;> subst h0 <;>
+      simp [sizeposComps, Tickit.Gen.Sgr.sizeposSuperscript, Tickit.Gen.Sgr.sizeposSubscript] at h
+
+/-- Nothing to send ⇒ the delta is empty ⇒ nothing is asked to change. -/
+theorem ovAttrs_of_comps_nil (caps : Caps) (d : Pen) (a : Attrs) (hd : DeltaOk caps d) (h : comps caps d = []) :
+    ovAttrs caps d a = a := by
+  simp only [comps, List.append_eq_nil_iff] at h
+  obtain ⟨⟨⟨⟨⟨⟨⟨⟨⟨h1, h2⟩, h3⟩, h4⟩, h5⟩, h6⟩, h7⟩, h8⟩, h9⟩, h10⟩ := h
+  have e1 := colourComps_eq_nil _ _ _ h1
+  have e2 := colourComps_eq_nil _ _ _ h2
+  have e3 := boolComps_eq_nil _ _ h3
+  have e4 := underComps_eq_nil _ h4
+  have e5 := boolComps_eq_nil _ _ h5
+  have e6 := boolComps_eq_nil _ _ h6
+  have e7 := boolComps_eq_nil _ _ h7
+  have e8 := altfontComps_eq_nil _ h8
+  have e9 := boolComps_eq_nil _ _ h9
+  have e10 := sizeposComps_eq_nil _ hd.sizepos h10
+  simp [ovAttrs, ovColour, e1, e2, e3, e4, e5, e6, e7, e8, e9, e10]
+
+/-- A pen with nothing non-default asks for the default rendering. -/
+theorem expect_of_not_nondefault (caps : Caps) (p : Pen) (h : isNondefault p = false) : expectAttrs caps p = {} := by
+  simp only [isNondefault, Bool.or_eq_false_iff, Bool.and_eq_false_iff] at h
+  obtain ⟨⟨⟨⟨⟨⟨⟨⟨⟨h1, h2⟩, h3⟩, h4⟩, h5⟩, h6⟩, h7⟩, h8⟩, h9⟩, h10⟩ := h
+  have c1 : expectColour caps.rgb8 p.fg = .dflt := by
+    cases hp : p.fg with
+    | none => rfl
+    | some c =>
+      have : c.idx = -1 := by simpa [hp, getColour] using h1
+      simp [expectColour, this]
+  have c2 : expectColour caps.rgb8 p.bg = .dflt := by
+    cases hp : p.bg with
+    | none => rfl
+    | some c =>
+      have : c.idx = -1 := by simpa [hp, getColour] using h2
+      simp [expectColour, this]
+  have c4 : (getInt p.under).toNat = 0 := by
+    cases hp : p.under with
+    | none => rfl
+    | some v =>
+      have : ¬ (v > 0) := by simpa [hp, getInt] using h4
+      simp [getInt]; omega
+  have c8 : expectFont (getInt p.altfont) = 0 := by
+    cases hp : p.altfont with
+    | none => rfl
+    | some v =>
+      have : ¬ (v > 0) := by simpa [hp, getInt] using h8
+      show expectFont v = 0
+      unfold expectFont
+      split
+      · omega
+      · rfl
+  have c10 : expectSizepos (getInt p.sizepos) = .normal := by
+    cases hp : p.sizepos with
+    | none => rfl
+    | some v =>
+      have : ¬ (v > 0) := by simpa [hp, getInt] using h10
+      show expectSizepos v = .normal
+      unfold expectSizepos
+      split
+      · rename_i h; simp [Tickit.Gen.Sgr.sizeposSuperscript] at h; omega
+      · split
+        · rename_i h; simp [Tickit.Gen.Sgr.sizeposSubscript] at h; omega
+        · split
+          · rename_i h; simp [Tickit.Gen.Sgr.sizeposSmall] at h; omega
+          · rfl
+  simp [expectAttrs, c1, c2, h3, c4, h5, h6, h7, c8, h9, c10]
+
+/-- "the terminal renders with what the cached pen says" -/
+def Inv (caps : Caps) (st : TState) : Prop :=
+  st.vt.st = .ground ∧ st.vt.attrs = expectAttrs caps st.cache
+
+theorem inv_init (caps : Caps) : Inv caps {} := ⟨rfl, rfl⟩
+
+theorem step_inv (cfg : Cfg) (st st' : TState) (op : Op) (hok : DeltaOk cfg.caps op.pen) (hinv : Inv cfg.caps st)
+    (h : step cfg st op = some st') :
+    Inv cfg.caps st' ∧ st'.cache = termCache op.isSet cfg.colors st.cache op.pen := by
+  obtain ⟨hg, ha⟩ := hinv
+  have hd := deltaOk_termDelta cfg.caps op.isSet cfg.colors st.cache op.pen hok
+  have hexp := expect_step cfg.caps op.isSet cfg.colors st.cache op.pen
+  have hne := comps_nonempty cfg.caps (termDelta op.isSet cfg.colors st.cache op.pen)
+  have hvt : st.vt = ⟨.ground, expectAttrs cfg.caps st.cache⟩ := by
+    cases hv : st.vt with
+    | mk s a => simp [hv] at hg ha; simp [hg, ha]
+  unfold step emit xtermChpen at h
+  simp only at h
+  split at h
+  · cases h
+  · rename_i bs hbs
+    simp only [Option.some.injEq] at h
+    subst h
+    refine ⟨?_, rfl⟩
+    split at hbs
+    · cases hbs
+    · split at hbs
+      · -- nothing to send
+        rename_i hlen
+        simp only [Out.bytes.injEq] at hbs
+        subst hbs
+        have hfl : flatten (comps cfg.caps (termDelta op.isSet cfg.colors st.cache op.pen)) = [] :=
+          List.eq_nil_of_length_eq_zero hlen
+        have hc := (flatten_eq_nil _ hne).1 hfl
+        have := ovAttrs_of_comps_nil cfg.caps _ (expectAttrs cfg.caps st.cache) hd hc
+        refine ⟨by simpa [run] using hg, ?_⟩
+        simp only [run, List.foldl_nil]
+        rw [ha, hexp, this]
+      · split at hbs
+        · -- empty-SGR shortcut
+          rename_i hnd
+          simp only [Out.bytes.injEq] at hbs
+          subst hbs
+          have hnd' : isNondefault (termCache op.isSet cfg.colors st.cache op.pen) = false := by simpa using hnd
+          rw [hvt, run_renderSgr]
+          refine ⟨rfl, ?_⟩
+          simp only [groupsFlat]
+          rw [expect_of_not_nondefault _ _ hnd']
+          simp [sgrApply, sgrGroup, sgrSimple, Attrs.reset, expectAttrs]
+        · rename_i hlen hnd
+          simp only [Out.bytes.injEq] at hbs
+          subst hbs
+          have hcs : comps cfg.caps (termDelta op.isSet cfg.colors st.cache op.pen) ≠ [] := by
+            intro hc
+            rw [hc] at hlen
+            exact hlen rfl
+          rw [hvt, run_renderSgr]
+          refine ⟨rfl, ?_⟩
+          simp only
+          rw [groupsFlat_flatten _ _ hcs hne, List.nil_append, sgrApply_comps _ _ _ hd (by rfl), hexp]
+
+theorem runOps_inv (cfg : Cfg) (ops : List Op) (st st' : TState) (hok : ∀ op ∈ ops, DeltaOk cfg.caps op.pen)
+    (hinv : Inv cfg.caps st) (h : runOps cfg ops st = some st') : Inv cfg.caps st' := by
+  induction ops generalizing st with
+  | nil => simp [runOps] at h; subst h; exact hinv
+  | cons op ops ih =>
+    simp only [runOps] at h
+    split at h
+    · cases h
+    · rename_i st1 hst
+      exact ih st1 (fun o ho => hok o (by simp [ho])) (step_inv cfg st st1 op (hok op (by simp)) hinv hst).1 h
+
+/-! ### 7. the palette and the link between cached and logical pen -/
+
+theorem palette_entry (i : Nat) :
+    Tickit.Gen.Palette.as16.getD i 0 < 16 ∧ Tickit.Gen.Palette.as8.getD i 0 < 8 := by
+  have htab : Tickit.Gen.Palette.as16.size = 256 ∧ Tickit.Gen.Palette.as8.size = 256 ∧
+      (∀ i : Fin 256, Tickit.Gen.Palette.as16.getD i.val 0 < 16 ∧ Tickit.Gen.Palette.as8.getD i.val 0 < 8) := by
+    decide +kernel
+  by_cases h : i < 256
+  · exact htab.2.2 ⟨i, h⟩
+  · have h16 : Tickit.Gen.Palette.as16.getD i 0 = 0 := by
+      simp [Array.getD, htab.1]; omega
+    have h8 : Tickit.Gen.Palette.as8.getD i 0 = 0 := by
+      simp [Array.getD, htab.2.1]; omega
+    omega
+
+theorem convertColour_lt (index colors : Int) (h8 : 8 ≤ colors) : convertColour index colors < colors := by
+  unfold convertColour
+  have := palette_entry index.toNat
+  split <;> omega
+
+theorem convertColour_nonneg (index colors : Int) : 0 ≤ convertColour index colors := by
+  unfold convertColour
+  split <;> omega
+
+theorem convColour_lt (colors : Int) (c : Colour) (h8 : 8 ≤ colors) : (convColour colors c).idx < colors := by
+  unfold convColour
+  split
+  · exact convertColour_lt _ _ h8
+  · omega
+
+theorem convColour_of_lt (colors : Int) (c : Colour) (h : c.idx < colors) : convColour colors c = c := by
+  unfold convColour
+  rw [if_neg (by omega)]
+
+theorem copyColour_some (x : Colour) : copyColour (some x) = x := by
+  cases x with
+  | mk idx rgb => cases rgb <;> rfl
+
+theorem equivColour_refl (x : Colour) : equivColour (some x) (some x) = true := by
+  cases x with
+  | mk idx rgb => cases rgb <;> simp [equivColour, getColour, hasRgb, getRgb]
+
+theorem equivColour_some_some (x y : Colour) (h : equivColour (some y) (some x) = true) : y = x := by
+  cases x with
+  | mk xi xr =>
+    cases y with
+    | mk yi yr =>
+      cases xr with
+      | none => cases yr <;> simp_all [equivColour, getColour, hasRgb]
+      | some a =>
+        cases yr with
+        | none => simp_all [equivColour, getColour, hasRgb]
+        | some b =>
+          cases a; cases b
+          simp_all [equivColour, getColour, hasRgb, getRgb]
+
+theorem equivColour_some_none (y : Colour) (h : equivColour (some y) none = true) : y = ⟨-1, none⟩ := by
+  cases y with
+  | mk yi yr => cases yr <;> simp_all [equivColour, getColour, hasRgb]
+
+theorem stepBool_link (set : Bool) (c p : Option Bool) :
+    (stepBool set c p).1 = if set then some (getBool p) else ov p c := by
+  cases set <;> cases c <;> cases p <;> simp [stepBool, ov, getBool] <;> split <;> simp_all
+
+theorem stepInt_link (set : Bool) (c p : Option Int) :
+    (stepInt set c p).1 = if set then some (getInt p) else ov p c := by
+  cases set <;> cases c <;> cases p <;> simp [stepInt, ov, getInt] <;> split <;> simp_all
+
+theorem stepColour_fresh (colors : Int) (x : Colour) :
+    (if getColour (some x) ≥ colors then
+        ((some ({ idx := convertColour (getColour (some x)) colors, rgb := none } : Colour)),
+         (some ({ idx := convertColour (getColour (some x)) colors, rgb := none } : Colour)))
+      else (some (copyColour (some x)), some (copyColour (some x)))).1 = some (convColour colors x) := by
+  by_cases h : getColour (some x) ≥ colors
+  · rw [if_pos h]
+    have h' : x.idx ≥ colors := h
+    unfold convColour
+    rw [if_pos h']
+    rfl
+  · rw [if_neg h]
+    have h' : ¬ x.idx ≥ colors := h
+    unfold convColour
+    rw [if_neg h', copyColour_some]
+
+theorem stepColour_link (set : Bool) (colors : Int) (l p : Option Colour) (h8 : 8 ≤ colors) :
+    (stepColour set colors (l.map (convColour colors)) p).1 =
+      (if set then some (p.getD ⟨-1, none⟩) else ov p l).map (convColour colors) := by
+  have hdef : convColour colors ⟨-1, none⟩ = ⟨-1, none⟩ := convColour_of_lt _ _ (by show (-1 : Int) < colors; omega)
+  have hnone : ¬ (getColour none ≥ colors) := by show ¬ ((-1 : Int) ≥ colors); omega
+  cases p with
+  | none =>
+    cases set
+    · simp [stepColour, ov]
+    · simp only [stepColour, Bool.not_true, Bool.false_and, Bool.false_eq_true, if_false, if_true, Option.getD_none,
+        Option.map_some, hdef]
+      cases l with
+      | none =>
+        simp only [Option.map_none, Option.isSome_none, Bool.false_and, Bool.false_eq_true, if_false]
+        rw [if_neg hnone]
+        rfl
+      | some z =>
+        simp only [Option.map_some, Option.isSome_some, Bool.true_and]
+        split
+        · rename_i he
+          rw [equivColour_some_none _ he]
+        · first
+            | rfl
+            | (rw [if_neg hnone]; rfl)
+  | some x =>
+    have hgoal : (stepColour set colors (l.map (convColour colors)) (some x)).1 = some (convColour colors x) := by
+      simp only [stepColour, Option.isNone_some, Bool.and_false, Bool.false_eq_true, if_false]
+      cases l with
+      | none =>
+        simp only [Option.map_none, Option.isSome_none, Bool.false_and, Bool.false_eq_true, if_false]
+        exact stepColour_fresh colors x
+      | some z =>
+        simp only [Option.map_some, Option.isSome_some, Bool.true_and]
+        split
+        · rename_i he
+          have hy := equivColour_some_some _ _ he
+          have hlt := convColour_lt colors z h8
+          rw [hy] at hlt ⊢
+          rw [convColour_of_lt _ _ hlt]
+        · exact stepColour_fresh colors x
+    rw [hgoal]
+    cases set <;> simp [ov]
+
+/-- The cached pen stays the palette-converted logical pen. -/
+theorem termCache_conv (colors : Int) (h8 : 8 ≤ colors) (l : Pen) (op : Op) :
+    termCache op.isSet colors (convPen colors l) op.pen = convPen colors (logicalStep l op) := by
+  cases op with
+  | set p =>
+    simp only [Op.isSet, Op.pen, logicalStep, termCache, convPen, total, stepBool_link, stepInt_link,
+      stepColour_link _ _ _ _ h8, if_true, Option.map_some]
+  | ch p =>
+    simp only [Op.isSet, Op.pen, logicalStep, termCache, convPen, overlay, stepBool_link, stepInt_link,
+      stepColour_link _ _ _ _ h8, Bool.false_eq_true, if_false]
+
+theorem runOps_cache (cfg : Cfg) (h8 : 8 ≤ cfg.colors) (ops : List Op) (st st' : TState) (l : Pen)
+    (hl : st.cache = convPen cfg.colors l) (h : runOps cfg ops st = some st') :
+    st'.cache = convPen cfg.colors (ops.foldl logicalStep l) := by
+  induction ops generalizing st l with
+  | nil => simp [runOps] at h; subst h; simpa using hl
+  | cons op ops ih =>
+    simp only [runOps] at h
+    split at h
+    · cases h
+    · rename_i st1 hst
+      have hc : st1.cache = termCache op.isSet cfg.colors st.cache op.pen := by
+        unfold step at hst
+        split at hst
+        · cases hst
+        · simp only [Option.some.injEq] at hst; subst hst; rfl
+      simp only [List.foldl_cons]
+      exact ih st1 (logicalStep l op) (by rw [hc, hl, termCache_conv _ h8]) h
+
+/-! ### 8. overlay at the level of rendering attributes -/
+
+theorem ovColour_ov (rgb8 : Bool) (q c : Option Colour) :
+    expectColour rgb8 (ov q c) = ovColour rgb8 q (expectColour rgb8 c) := by
+  cases q <;> rfl
+
+theorem expect_overlay (caps : Caps) (c q : Pen) :
+    expectAttrs caps (overlay c q) = ovAttrs caps q (expectAttrs caps c) := by
+  simp only [expectAttrs, ovAttrs, overlay, Attrs.mk.injEq, ovColour_ov]
+  refine ⟨trivial, trivial, ?_, trivial, ?_, ?_, ?_, ?_, ?_, ?_, ?_, trivial⟩ <;>
+    first
+    | (cases q.bold <;> rfl) | (cases q.italic <;> rfl) | (cases q.under <;> rfl) | (cases q.blink <;> rfl)
+    | (cases q.reverse <;> rfl) | (cases q.strike <;> rfl) | (cases q.altfont <;> rfl) | (cases q.sizepos <;> rfl)
+
+theorem convPen_overlay (colors : Int) (l p : Pen) :
+    convPen colors (overlay l p) = overlay (convPen colors l) (convPen colors p) := by
+  simp only [convPen, overlay, Pen.mk.injEq]
+  refine ⟨?_, ?_, trivial, trivial, trivial, trivial, trivial, trivial, trivial, trivial⟩
+  · cases p.fg <;> rfl
+  · cases p.bg <;> rfl
+
+/-! ### 9. how many parameters -/
+
+theorem length_flattenComp (c : Comp) : (flattenComp c).length = c.length := by
+  induction c with
+  | nil => rfl
+  | cons v tl ih =>
+    cases tl with
+    | nil => rfl
+    | cons w tl' => simp only [flattenComp, List.length_cons] at ih ⊢; omega
+
+theorem flatten_append (xs ys : List Comp) : flatten (xs ++ ys) = flatten xs ++ flatten ys := by
+  induction xs with
+  | nil => rfl
+  | cons c cs ih => simp [flatten, ih]
+
+theorem length_flatten_colour (attr : Nat) (rgb8 : Bool) (o : Option Colour) :
+    (flatten (colourComps attr rgb8 o)).length ≤ 5 := by
+  unfold colourComps
+  split
+  · simp [flatten]
+  · repeat' split
+    all_goals simp [flatten, flattenComp]
+
+theorem length_flatten_bool (attr : Nat) (o : Option Bool) : (flatten (boolComps attr o)).length ≤ 1 := by
+  cases o <;> simp [boolComps, flatten, flattenComp]
+
+theorem length_flatten_under (o : Option Int) : (flatten (underComps o)).length ≤ 2 := by
+  unfold underComps
+  split
+  · simp [flatten]
+  · repeat' split
+    all_goals simp [flatten, flattenComp]
+
+theorem length_flatten_altfont (o : Option Int) : (flatten (altfontComps o)).length ≤ 1 := by
+  unfold altfontComps
+  split
+  · simp [flatten]
+  · repeat' split
+    all_goals simp [flatten, flattenComp]
+
+theorem length_flatten_sizepos (o : Option Int) : (flatten (sizeposComps o)).length ≤ 1 := by
+  unfold sizeposComps
+  split
+  · simp [flatten]
+  · repeat' split
+    all_goals simp [flatten, flattenComp]
+
+/-- No delta needs more than 19 elements of `params[]`. -/
+theorem length_flatten_comps (caps : Caps) (d : Pen) : (flatten (comps caps d)).length ≤ 19 := by
+  unfold comps
+  simp only [flatten_append, List.length_append]
+  have h1 := length_flatten_colour 1 caps.rgb8 d.fg
+  have h2 := length_flatten_colour 2 caps.rgb8 d.bg
+  have h3 := length_flatten_bool 3 d.bold
+  have h4 := length_flatten_under d.under
+  have h5 := length_flatten_bool 5 d.italic
+  have h6 := length_flatten_bool 6 d.reverse
+  have h7 := length_flatten_bool 7 d.strike
+  have h8 := length_flatten_altfont d.altfont
+  have h9 := length_flatten_bool 9 d.blink
+  have h10 := length_flatten_sizepos d.sizepos
+  omega
+
+/-! ### 10. a request that leaves the logical pen unchanged -/
+
+/-- The colours a pen names are inside the terminal's palette. -/
+def InPalette (colors : Int) (p : Pen) : Prop :=
+  (∀ c, p.fg = some c → c.idx < colors) ∧ (∀ c, p.bg = some c → c.idx < colors)
+
+theorem stepBool_noop (set : Bool) (l p : Option Bool) (h : (if set then some (getBool p) else ov p l) = l) :
+    (stepBool set l p).2 = none := by
+  cases set <;> cases l <;> cases p <;> simp_all [stepBool, ov, getBool]
+
+theorem stepInt_noop (set : Bool) (l p : Option Int) (h : (if set then some (getInt p) else ov p l) = l) :
+    (stepInt set l p).2 = none := by
+  cases set <;> cases l <;> cases p <;> simp_all [stepInt, ov, getInt]
+
+theorem stepColour_noop (set : Bool) (colors : Int) (h8 : 8 ≤ colors) (l p : Option Colour)
+    (hp : ∀ c, p = some c → c.idx < colors)
+    (h : (if set then some (p.getD ⟨-1, none⟩) else ov p l) = l) :
+    (stepColour set colors (l.map (convColour colors)) p).2 = none := by
+  have hdef : convColour colors ⟨-1, none⟩ = ⟨-1, none⟩ := convColour_of_lt _ _ (by show (-1 : Int) < colors; omega)
+  cases p with
+  | none =>
+    cases set
+    · simp [stepColour]
+    · simp only [if_true, Option.getD_none] at h
+      subst h
+      simp only [stepColour, Bool.not_true, Bool.false_and, Bool.false_eq_true, if_false, Option.map_some, hdef,
+        Option.isSome_some, Bool.true_and]
+      have : equivColour (some ⟨-1, none⟩) none = true := by simp [equivColour, getColour, hasRgb]
+      rw [if_pos this]
+  | some x =>
+    have hl : l = some x := by
+      cases set <;> simp_all [ov]
+    subst hl
+    have hx := convColour_of_lt _ _ (hp x rfl)
+    simp only [stepColour, Option.isNone_some, Bool.and_false, Bool.false_eq_true, if_false, Option.map_some, hx,
+      Option.isSome_some, Bool.true_and]
+    rw [if_pos (equivColour_refl x)]
+
+/-- If the request does not change the logical pen (and names no colour beyond the palette), the delta is empty. -/
+theorem termDelta_noop (colors : Int) (h8 : 8 ≤ colors) (l : Pen) (op : Op) (hp : InPalette colors op.pen)
+    (h : logicalStep l op = l) : termDelta op.isSet colors (convPen colors l) op.pen = {} := by
+  cases op with
+  | set p =>
+    simp only [logicalStep, total] at h
+    simp only [Op.isSet, Op.pen, termDelta, convPen, Pen.mk.injEq]
+    refine ⟨stepColour_noop true colors h8 _ _ hp.1 ?_, stepColour_noop true colors h8 _ _ hp.2 ?_, stepBool_noop true _ _ ?_,
+      stepInt_noop true _ _ ?_, stepBool_noop true _ _ ?_, stepBool_noop true _ _ ?_, stepBool_noop true _ _ ?_,
+      stepInt_noop true _ _ ?_, stepBool_noop true _ _ ?_, stepInt_noop true _ _ ?_⟩
+    · exact congrArg Pen.fg h
+    · exact congrArg Pen.bg h
+    · exact congrArg Pen.bold h
+    · exact congrArg Pen.under h
+    · exact congrArg Pen.italic h
+    · exact congrArg Pen.reverse h
+    · exact congrArg Pen.strike h
+    · exact congrArg Pen.altfont h
+    · exact congrArg Pen.blink h
+    · exact congrArg Pen.sizepos h
+  | ch p =>
+    simp only [logicalStep, overlay] at h
+    simp only [Op.isSet, Op.pen, termDelta, convPen, Pen.mk.injEq]
+    refine ⟨stepColour_noop false colors h8 _ _ hp.1 ?_, stepColour_noop false colors h8 _ _ hp.2 ?_, stepBool_noop false _ _ ?_,
+      stepInt_noop false _ _ ?_, stepBool_noop false _ _ ?_, stepBool_noop false _ _ ?_, stepBool_noop false _ _ ?_,
+      stepInt_noop false _ _ ?_, stepBool_noop false _ _ ?_, stepInt_noop false _ _ ?_⟩
+    · exact congrArg Pen.fg h
+    · exact congrArg Pen.bg h
+    · exact congrArg Pen.bold h
+    · exact congrArg Pen.under h
+    · exact congrArg Pen.italic h
+    · exact congrArg Pen.reverse h
+    · exact congrArg Pen.strike h
+    · exact congrArg Pen.altfont h
+    · exact congrArg Pen.blink h
+    · exact congrArg Pen.sizepos h
+
+theorem xtermChpen_empty (caps : Caps) (cap : Nat) (final : Pen) : xtermChpen caps cap {} final = .bytes [] := by
+  simp [xtermChpen, comps, colourComps, boolComps, underComps, altfontComps, sizeposComps, flatten]
+
 end Tickit.Proof.Sgr
